@@ -402,7 +402,7 @@ Proof.
       destruct (rem_find k (m_rem m)) as [[|y r0]|] eqn:Ef; try discriminate.
       destruct (msg_eqb x y) eqn:Exy; [|discriminate]. apply msg_eqb_eq in Exy. subst y.
       inversion Es; subst m1; clear Es.
-      specialize (IH _ _ H Hr). destruct IH as [I1 I2 I3 I4 I5]. cbn [m_rem m_fin m_ret] in *.
+      specialize (IH _ _ H eq_refl). destruct IH as [I1 I2 I3 I4 I5]. cbn [m_rem m_fin m_ret] in *.
       constructor.
       * intros i. specialize (I1 i). rewrite rem_find_set in I1. cbn [recvs_of flat_map].
         destruct (Z.eqb_spec k i) as [->|Hne].
@@ -413,11 +413,11 @@ Proof.
         apply quiet_cons; [reflexivity | | assumption]. cbn [is_recv].
         destruct (Z.eqb_spec k i) as [->|]; [congruence | reflexivity].
       * intros i H1 H2. destruct (I3 i H1 H2) as (a & b & -> & Ha & Hb & Hrem).
-        exists (ERecv k x :: a), b. repeat split; try assumption. now apply no_finish_cons.
+        exists (ERecv k x :: a), b. split; [reflexivity|]. split; [now apply no_finish_cons|]. split; assumption.
       * destruct I4 as [[Hf Hn]|(Hf & h0 & -> & Hn & Hall)].
         -- left. split; [assumption | now apply no_return_cons].
-        -- right. split; [assumption|]. exists (ERecv k x :: h0). repeat split; try assumption.
-           now apply no_return_cons.
+        -- right. split; [assumption|]. exists (ERecv k x :: h0). split; [reflexivity|].
+           split; [now apply no_return_cons | assumption].
       * intros e k' [<-|He] Hk'.
         -- cbn in Hk'. inversion Hk'; subst. congruence.
         -- specialize (I5 e k' He Hk'). rewrite rem_find_set in I5.
@@ -426,7 +426,7 @@ Proof.
       destruct (memz k (m_fin m)) eqn:Ek; [discriminate|].
       destruct (rem_find k (m_rem m)) as [[|y r0]|] eqn:Ef; try discriminate.
       inversion Es; subst m1; clear Es.
-      specialize (IH _ _ H Hr). destruct IH as [I1 I2 I3 I4 I5]. cbn [m_rem m_fin m_ret memz] in *.
+      specialize (IH _ _ H eq_refl). destruct IH as [I1 I2 I3 I4 I5]. cbn [m_rem m_fin m_ret memz] in *.
       constructor.
       * intros i. exact (I1 i).
       * intros i Hi. assert (Hne : k <> i) by congruence.
@@ -434,38 +434,38 @@ Proof.
         apply quiet_cons; [|reflexivity | assumption]. cbn [is_finish]. now apply Z.eqb_neq.
       * intros i H1 H2. destruct (Z.eqb_spec k i) as [->|Hne].
         -- destruct (I2 i) as [Hq _]; [now rewrite Z.eqb_refl|].
-           exists [], r. repeat split; try assumption; [intros e [] |].
+           exists [], r. split; [reflexivity|]. split; [intros e []|]. split; [assumption|].
            specialize (I1 i). rewrite Ef in I1. destruct (rem_find i (m_rem m')) as [y'|]; [|discriminate].
            inversion I1 as [Hy]. symmetry in Hy. apply app_eq_nil in Hy as [_ ->]. reflexivity.
         -- destruct (I3 i) as (a & b & -> & Ha & Hb & Hrem); [|assumption|].
            ++ apply Z.eqb_neq in Hne. rewrite Hne. exact H1.
-           ++ exists (EFinish k :: a), b. repeat split; try assumption.
+           ++ exists (EFinish k :: a), b. split; [reflexivity|]. split; [|split; assumption].
               apply no_finish_cons; [|assumption]. cbn [is_finish]. now apply Z.eqb_neq.
       * destruct I4 as [[Hf Hn]|(Hf & h0 & -> & Hn & Hall)].
         -- left. split; [assumption | now apply no_return_cons].
-        -- right. split; [assumption|]. exists (EFinish k :: h0). repeat split; try assumption.
-           now apply no_return_cons.
+        -- right. split; [assumption|]. exists (EFinish k :: h0). split; [reflexivity|].
+           split; [now apply no_return_cons | assumption].
       * intros e k' [<-|He] Hk'.
         -- cbn in Hk'. inversion Hk'; subst. congruence.
         -- exact (I5 e k' He Hk').
     + (* EReturn *)
       destruct (forallb (fun t => memz t (m_fin m)) (c_targets cfg)) eqn:Eall; [|discriminate].
       inversion Es; subst m1; clear Es.
-      destruct (mon_run_after_return cfg _ r m' eq_refl H) as [-> ->]. cbn [m_rem m_fin m_ret].
+      destruct (mon_run_after_return cfg (MkMon (m_rem m) (m_fin m) true) r m' eq_refl H) as [-> ->].
       constructor; cbn [m_rem m_fin m_ret].
       * intros i. cbn. destruct (rem_find i (m_rem m)); reflexivity.
       * intros i Hi. split; [|assumption]. intros e [<-|[]]. split; reflexivity.
       * intros i H1 H2. congruence.
-      * right. split; [reflexivity|]. exists []. repeat split; [intros e [] | assumption].
+      * right. split; [reflexivity|]. exists []. split; [reflexivity|]. split; [intros e [] | assumption].
       * intros e k [<-|[]] Hk. discriminate.
 Qed.
 
 Lemma last_split : forall (a b0 h0 : list event) x y, a ++ x :: b0 = h0 ++ [y] -> x <> y ->
   exists b, b0 = b ++ [y].
 Proof.
-  intros a b0 h0 x y H Hne. destruct b0 as [|z b0'] using rev_ind.
+  intros a b0 h0 x y H Hne. induction b0 as [|z b1 _] using rev_ind.
   - change (a ++ [x] = h0 ++ [y]) in H. apply app_inj_tail in H as [_ H]. contradiction.
-  - exists b0. replace (a ++ x :: b0 ++ [z]) with ((a ++ x :: b0) ++ [z]) in H
+  - exists b1. replace (a ++ x :: b1 ++ [z]) with ((a ++ x :: b1) ++ [z]) in H
       by (rewrite <- app_assoc; reflexivity).
     apply app_inj_tail in H as [_ ->]. reflexivity.
 Qed.
@@ -488,19 +488,18 @@ Proof.
   assert (Hfin : forall i, In i (c_targets cfg) ->
             exists a b, h = a ++ EFinish i :: b /\ no_finish i a /\ quiet i b /\ rem_find i (m_rem m') = Some []).
   { intros i Hi. apply I3; [reflexivity | now apply Hall]. }
-  repeat split.
+  split; [|split; [|split]].
   - intros i Hi. destruct (Hfin i Hi) as (_ & _ & _ & _ & _ & Hrem).
     specialize (I1 i). rewrite rem_find_init, Hrem in I1 by assumption.
-    inversion I1 as [H1]. now rewrite app_nil_r.
+    inversion I1 as [H1]. rewrite app_nil_r in H1. symmetry. exact H1.
   - intros e k He Hk. specialize (I5 e k He Hk).
     destruct (in_dec Z.eq_dec k (c_targets cfg)) as [Hin|Hnin]; [assumption|].
     rewrite rem_find_init_none in I5 by assumption. congruence.
   - exists h0. split; assumption.
   - intros i Hi. destruct (Hfin i Hi) as (a & b0 & Hab & Ha & Hb & _).
     destruct (last_split a b0 h0 (EFinish i) EReturn) as [b ->]; [congruence | discriminate|].
-    exists a, b. repeat split; [assumption | assumption | |].
-    + apply Hb. apply in_or_app. now left.
-    + apply Hb. apply in_or_app. now left.
+    exists a, b. split; [assumption|]. split; [assumption|].
+    intros e He. apply Hb. apply in_or_app. now left.
 Qed.
 
 (** the content-only check used for C10 *)
